@@ -60,4 +60,48 @@ theorem lock_cases (c c' : FCont) (a : Int) (w : Who) (h : c.lock a w = .ok c') 
 
 deriving instance DecidableEq for Except
 
+/-! ### non-fungible id lists -/
+
+theorem mem_of_mem_swapRemove {l l' : List Nat} {x y : Nat} (h : swapRemove l x = some l') (hy : y ∈ l') : y ∈ l := by
+  unfold swapRemove at h
+  by_cases hx : x ∈ l
+  · simp only [hx, if_true] at h
+    cases hl : l.getLast? with
+    | none => simp [hl] at h
+    | some last =>
+      simp only [hl] at h
+      have hlast : last ∈ l := List.mem_of_getLast? hl
+      by_cases he : last = x
+      · simp only [he, if_true, Option.some.injEq] at h; subst h; exact List.dropLast_subset l hy
+      · simp only [he, if_false, Option.some.injEq] at h; subst h
+        simp only [List.mem_map] at hy
+        obtain ⟨z, hz, rfl⟩ := hy
+        by_cases hzx : z = x
+        · simp only [hzx, if_true]; exact hlast
+        · simp only [hzx, if_false]; exact List.dropLast_subset l hz
+  · simp [hx] at h
+
+theorem takeIds_needs_liquid (w : Who) (ids : List Nat) : ∀ {l l' : List Nat}, takeIds l w ids = .ok l' →
+    (∀ i ∈ ids, i ∈ l) ∧ (∀ y ∈ l', y ∈ l) := by
+  induction ids with
+  | nil => intro l l' h; simp only [takeIds, Except.ok.injEq] at h; subst h; exact ⟨(by intro i hi; cases hi), fun _ h => h⟩
+  | cons id rest ih =>
+    intro l l' h
+    simp only [takeIds] at h
+    cases hs : swapRemove l id with
+    | none => simp [hs] at h
+    | some l1 =>
+      simp only [hs] at h
+      obtain ⟨h1, h2⟩ := ih h
+      have hid : id ∈ l := by
+        unfold swapRemove at hs
+        by_cases hx : id ∈ l
+        · exact hx
+        · simp [hx] at hs
+      refine ⟨?_, fun y hy => mem_of_mem_swapRemove hs (h2 y hy)⟩
+      intro i hi
+      rcases List.mem_cons.mp hi with rfl | hi
+      · exact hid
+      · exact mem_of_mem_swapRemove hs (h1 i hi)
+
 end Radix.Res
